@@ -857,6 +857,29 @@ func compRS(o *out, seed uint64, tier string) {
 			emit(&rsCase{in: first, ops: ops, conc: 1}, "life", nil, "reuse-after-dependent-frame-onto-bad-offset")
 		}
 	}
+	// a large skippable frame in front of a valid frame, delivered by a source that can also Seek (frag 5)
+	// and by a plain one: cut inside the skippable payload (an error, never a clean end), and with the
+	// skippable frame's size field enlarged beyond the end of the source
+	{
+		x := frames[2]
+		for _, skipLen := range []int{40000, 100} {
+			skip := binary.LittleEndian.AppendUint32(binary.LittleEndian.AppendUint32(nil, 0x184D2A53), uint32(skipLen))
+			skip = append(skip, r.bytes(skipLen)...)
+			full := append(append([]byte{}, skip...), x.f...)
+			for _, fr := range []int{5, 0} {
+				emit(&rsCase{in: full, ops: readOps(), frag: fr, conc: 1}, "valid", x.data, "skippable-then-frame-seekable-source")
+				for _, k := range []int{8, 9, 8 + skipLen/2, 8 + skipLen - 1, 8 + skipLen + 3} {
+					emit(&rsCase{in: full[:k], ops: []string{"RA:4096"}, frag: fr, conc: 1}, "trunc", x.data, "cut-inside-skippable-frame")
+					emit(&rsCase{in: full[:k], ops: []string{"WT"}, frag: fr, conc: 2}, "trunc", x.data, "cut-inside-skippable-frame")
+				}
+				for _, bit := range []uint{17, 24, 30} {
+					m := append([]byte{}, full...)
+					m[4+bit/8] ^= 1 << (bit % 8)
+					emit(&rsCase{in: m, ops: []string{"RA:4096"}, frag: fr, conc: 1}, "mut", nil, "skippable-size-beyond-the-source")
+				}
+			}
+		}
+	}
 	// Size() BEFORE the first read, on headers that must be rejected (wrong checksum, undefined block-size
 	// code, not a frame): asking for the size must neither accept the header nor change what the reads report
 	{
